@@ -45,6 +45,12 @@ CHECKS.update({
    text="Backoff arithmetic is decided single-threaded by replacing interruptable_sleep with a recorder and comparing every requested wait with min(max, min*mult^(k-1)); the stop/start protocol runs real threads but the harness blocks do() so that it owns where stop() lands; notification delivery is compared with the raised list, in order, once each.",
    note="Trusted: the reference law as transcribed from the statement. Real-thread parts sample OS scheduling apart from the harness-owned stop placement; a wall-clock wait that runs out is reported as inconclusive, never as a violation."),
 })
+CHECKS.update({
+ "C10": dict(engine="E-engine-harness", category="fault_enumeration", design_ref="2/C10",
+   technique="fault injection driven by property-based generation: Hypothesis-generated histories with generated fault arms (kind x before/after-effect x placement) in front of the provider API; bounded enumeration of every single-fault placement of generated fault-free runs; oracles: escaped-exception invariant, per-step notification attribution, convergence + version-survival after faults stop",
+   text="Faults are raised instead of / after the k-th engine-originated provider call; the production loop body must swallow them, raise the matching notification in the same step, and converge without loss once faults stop. The 'single' part enumerates, for each generated fault-free history, every engine call index x 7 fault kinds/phases once (all placements of a single fault); 'stuck' covers permanently failing files (locked / invalid name).",
+   note=E_NOTE + " Two fault-placement families are fenced off as open findings (KF-20, KF-21) and replayed every run."),
+})
 NOT_YET = {}
 
 def main():
